@@ -621,6 +621,11 @@ pub(crate) fn clear_panicking() -> Option<String> {
     })
 }
 
+/// Clears the panicking flag of the current task after a panic has been caught inside it (see `vsched::panic::catch_unwind`)
+pub fn clear_panicking_public() {
+    let _ = clear_panicking();
+}
+
 /// Root only: blocks until no other task is runnable.
 pub fn wait_quiescent() {
     assert_eq!(current(), 0, "wait_quiescent is for the root task");
